@@ -76,6 +76,9 @@ class SurfaceMonitor(Monitor):
         self.sim.broker.publish_hooks.append(self.on_publish)
         self.sim.after_step.append(self.poll)
         self.redis = w.redis_server
+        import random
+        self.poll_rng = random.Random((self.sim.seed << 3) ^ 0x9011)   # client polls: own stream, never the scheduler's
+        self.client_polls = []
         if self.preempt:
             if self.redis is not None:
                 self.redis.boundary_hook = self.on_redis_command
@@ -124,6 +127,52 @@ class SurfaceMonitor(Monitor):
 
     # -- publish time ----------------------------------------------------------------------------
     def on_publish(self, ch, exchange, routing_key, body, props, queues, uid):
+        self._on_publish_inner(ch, exchange, routing_key, body, props, queues, uid)
+        if exchange != TOPIC_EXCHANGE:
+            return
+        try:
+            d = json.loads(body.decode("utf8") if isinstance(body, bytes) else body)["detail"]
+        except (ValueError, KeyError, TypeError):
+            return
+        arn = d.get("executionArn")
+        if not arn or self.machine_type(d.get("stateMachineArn") or ":") != "STANDARD":
+            return
+        # a client that polls DescribeExecution through any instance, at and shortly after each status change: what
+        # it is told must be the stored record of that moment (as it was when the call was made or when it returned)
+        for _ in range(self.poll_rng.choice([0, 1, 1, 2])):
+            delay = self.poll_rng.choice([0.0, 0.0, 0.001, 0.05, 0.5, 2.0])
+            ni = self.poll_rng.randrange(len(self.world.nodes))
+            self.sim.call_later(delay, lambda arn=arn, ni=ni: self.client_poll(arn, ni), None, kind="client", label="poll")
+
+    def client_poll(self, arn, ni):
+        node = self.world.nodes[ni]
+        if node.dead or node.app is None:
+            return
+        if self.redis is None and (node.state_engine is None or node.state_engine.executions.get(arn) is None):
+            return
+        before = self.records().get(arn)
+        before = json.loads(json.dumps(before)) if before is not None else None
+
+        def done(rec):
+            after = self.records().get(arn)
+            self.probe("client-polls")
+            if rec["status"] == -1:
+                return
+            if rec["status"] != 200 or not isinstance(rec["json"], dict):
+                if before is not None and after is not None:
+                    self.add("C11", "describe-differs-from-record", "%s polled via %s: %s %s, stored %r" % (
+                        arn, node.name, rec["status"], str(rec["body"])[:120], content(after)), witness="poll")
+                return
+            got = content(rec["json"])
+            if (before is None or got != content(before)) and (after is None or got != content(after)):
+                self.probe("client-polls-stale")
+                self.add("C11", "describe-differs-from-record", "%s polled via %s while the execution runs: told %r, "
+                         "the stored record was %r when asked and %r when answered" % (
+                             arn, node.name, got, content(before) if before else None, content(after) if after else None),
+                         witness="poll")
+        self.world.api.call(node, "DescribeExecution", {"executionArn": arn}, on_done=done)
+
+    def _on_publish_inner(self, ch, exchange, routing_key, body, props, queues, uid):
         if exchange != TOPIC_EXCHANGE:
             return
         try:
